@@ -285,8 +285,10 @@ def userEval (p : CProg) : Nat → Nat → Nat → Time → St → UserRes
       let s1 := s.logf s!"E {lbl} {t} a={inDesc s a t}"
       { st := writeOut p s1 inst idx .main (inValue s a) "" t }
     | .gate =>
-      let s1 := s.logf s!"E {lbl} {t} a={inDesc s a t} b={inDesc s b t}"
-      let v := (if inValid s a then inValue s a else 0) + (if inValid s b then inValue s b else 0)
+      -- any number of inputs (2 for gate / ngate, 3 for gate3), logged as a= b= c=
+      let descs := (cn.ins.zip ["a", "b", "c", "d"]).map fun (r, nm) => s!" {nm}={inDesc s r t}"
+      let s1 := s.logf (s!"E {lbl} {t}" ++ String.join descs)
+      let v := cn.ins.foldl (fun acc r => acc + (if inValid s r then inValue s r else 0)) 0
       { st := writeOut p s1 inst idx .main v "" t }
     | .script id =>
       let sc := (lookup p.scripts id).getD []
